@@ -45,9 +45,15 @@ Realisable(i, tok) ==
 \* that the oracles can tell where every piece of the output came from
 Mark(tok, k) == IF tok.t \in {"text", "comment"} THEN [tok EXCEPT !.d = tok.d \o ToString(k)] ELSE tok
 
+\* a family may restrict the exploration to prefixes of well-nested documents (C08/C09 speak about
+\* those only), which lets the same budget reach much longer documents
+WN == "wellnested" \in DOMAIN Fam /\ Fam.wellnested
+
 Next == /\ Len(inp) < MaxLen
         /\ \E tok \in Alphabet :
               /\ Realisable(inp, tok)
+              /\ WN => LET o == Open(Append(inp, tok))     \* ... that can still be closed within MaxLen
+                        IN  o # Err /\ Len(o) <= MaxLen - Len(inp) - 1
               /\ Feed(Mark(tok, Len(inp) + 1))
               /\ hist' = Append(hist, [st |-> st', n |-> Len(out'),
                                        b |-> Branch(pol, st, Mark(tok, Len(inp) + 1), After(pol, Mark(tok, Len(inp) + 1)))])
@@ -58,7 +64,8 @@ Spec == Init /\ [][Next]_vars
 Case == [rid |-> rid, inp |-> inp, out |-> out, hist |-> hist]
 
 \* hist mode: print every maximal history
-EmitHist == (Mode = "hist" /\ Len(inp) = MaxLen) => PrintT(<<"CASE", ToJson(Case)>>)
+\* (in a well-nested family also every complete document on the way)
+EmitHist == (Mode = "hist" /\ (Len(inp) = MaxLen \/ (WN /\ inp # <<>> /\ WellNested(inp)))) => PrintT(<<"CASE", ToJson(Case)>>)
 
 \* cover mode: print a witness for every transition of the quotient graph
 View == <<rid, st>>
